@@ -178,6 +178,7 @@ theorem inv_congr (s s' : St) (h : Inv s) (e1 : s'.inst = s.inst) (e2 : s'.live 
 
 theorem inv_emit (s : St) (o : List Out) (h : Inv s) : Inv (s.emit o) := inv_congr s _ h rfl rfl rfl rfl rfl rfl rfl
 theorem inv_block (s : St) (w : Who) (r : List Instr) (h : Inv s) : Inv (s.block w r) := inv_congr s _ h rfl rfl rfl rfl rfl rfl rfl
+theorem inv_yieldTo (s : St) (w : Who) (r : List Instr) (h : Inv s) : Inv (s.yieldTo w r) := inv_congr s _ h rfl rfl rfl rfl rfl rfl rfl
 theorem inv_release (s : St) (h : Inv s) : Inv s.release := by
   unfold St.release; split
   · exact inv_congr s _ h rfl rfl rfl rfl rfl rfl rfl
@@ -486,13 +487,17 @@ theorem exec_inv : ∀ (f : Nat) (s : St) (w : Who) (p : List Instr), Inv s → 
           have h1 := inv_offer_data s w i m h hc
           split
           · exact inv_block _ _ _ h1
-          · exact ih _ _ _ h1
+          · split
+            · exact inv_yieldTo _ _ _ h1
+            · exact ih _ _ _ h1
       | closeStream i =>
         simp only [exec]
         have h1 := inv_closeStreamP s w i (s.cfg.proto == .h2 && h2CloseStreamPopsFirst) h
         split
         · exact inv_block _ _ _ h1
-        · exact ih _ _ _ h1
+        · split
+          · exact inv_yieldTo _ _ _ h1
+          · exact ih _ _ _ h1
       | h2StreamClosed i =>
         simp only [exec]
         split
